@@ -71,8 +71,9 @@ def main():
     if ok:
         dst = os.path.join(VERIF, "seeded", sid)
         os.makedirs(dst, exist_ok=True)
-        shutil.copy(os.path.join(cand, "patch.diff"), os.path.join(dst, "patch.diff"))
-        shutil.copy(os.path.join(cand, "demo.py"), os.path.join(dst, "demo.py"))
+        if os.path.abspath(cand) != os.path.abspath(dst):
+            shutil.copy(os.path.join(cand, "patch.diff"), os.path.join(dst, "patch.diff"))
+            shutil.copy(os.path.join(cand, "demo.py"), os.path.join(dst, "demo.py"))
         prop = meta.get("property", sid.split("-")[0])
         m = {
             "id": sid,
